@@ -52,6 +52,7 @@ def corpus(rep):
     # fragments against the init segment: mutate the media segment
     for lab, m in readcheck.havoc(frag, rng, 150 if quick else 1500) + readcheck.truncations(frag, 11 if quick else 1):
         cases.append(("frag:" + lab, {"data": init, "frag": m}))
+    cases += readcheck.trun_bombs(init)[::3]
     return cases
 
 
